@@ -2,6 +2,7 @@
 # usage: tools_seed_eval.sh <patch.diff> <check id>...   applies the patch to /repo, runs the quick checks, undoes it
 P="$1"; shift
 cd /repo && git status --short | grep -v '^??' | grep . && { echo "repo not clean"; exit 2; }
+trap "git -C /repo checkout -- ." EXIT
 git -C /repo apply "$P" || { echo "patch does not apply"; exit 2; }
 for c in "$@"; do
   cd /verif && bin/check $c ${TIER:-quick} > /tmp/seedeval-$c.out 2>&1
